@@ -39,6 +39,7 @@ type target struct {
 	opaque []string // callees that stay outside: each becomes a parameter `<name>P` of the translated function that calls it
 	chanLog string  // a (pruned) struct that gets the ghost field `chlog`: the channel operations its methods perform, in order
 	regions []regionSpec // statements of a function translated as definitions of their own
+	callLog string       // a (pruned) struct that gets the ghost field `cblog`: the calls its methods make through callback values (numbers), in order
 }
 
 // mapRangeCtx: for k, v := range m — the value variable, the key's Lean name, the map expression
@@ -49,7 +50,9 @@ type mapRangeCtx struct {
 }
 
 // regionSpec: the first `range` statement of function fn, as a definition `name` of the variables it uses
-type regionSpec struct{ fn, name string }
+// regionSpec: a piece of a function translated as a definition of its own. kind "" = its first range statement;
+// kind "retlit" = the body of the function literal it returns (the captured variables become parameters)
+type regionSpec struct{ fn, name, kind string }
 
 var targets = []target{
 	{dir: "internal/parser", files: []string{"chunk.go", "field.go", "field_parser.go", "parser.go"},
@@ -86,7 +89,10 @@ var targets = []target{
 	// Server.Publish's topic defaulting
 	{dir: ".", files: []string{"server.go"}, funcs: []string{"getTopics"}, out: "Server"},
 	// what a reconnection attempt does to the request: the body re-obtained, the Last-Event-ID header set or removed
-	{dir: ".", files: []string{"client.go", "client_connection.go", "event.go"}, funcs: []string{"resetRequestBody", "Connection.resetRequest"}, out: "Reset", prune: []string{"Connection"}},
+	{dir: ".", files: []string{"client.go", "client_connection.go", "event.go"}, funcs: []string{"resetRequestBody", "Connection.resetRequest",
+		"Connection.addSubscriberToAll", "Connection.addSubscriber", "Connection.dispatch"}, out: "Reset", prune: []string{"Connection"}, callLog: "Connection",
+		regions: []regionSpec{{fn: "Connection.addSubscriberToAll", name: "Connection_removeFromAll", kind: "retlit"},
+			{fn: "Connection.addSubscriber", name: "Connection_removeFromType", kind: "retlit"}}},
 	// Joe's loop, the parts that touch the subscribers: removeSubscriber, closeSubscribers and the fan-out of a published
 	// message (the `range` statement of start's message case, as a definition of its own)
 	{dir: ".", files: []string{"message.go", "message_fields.go", "replay.go", "server.go", "session.go", "joe.go"},
@@ -133,6 +139,11 @@ type tr struct {
 	opaque         map[string]bool            // callees of this target that are parameters of their callers
 	chanLog        string                     // the struct that carries the ghost channel log
 	orderParam     string                     // the current function ranges over a map: the order of its keys is this parameter
+	orderOf        map[*ast.RangeStmt]string  // … one parameter per range over a map (order, order2, …)
+	callLog        string                     // the struct that carries the ghost log of callback calls
+	callArgTy      string                     // … Lean type of the argument the callbacks take
+	retEnv         []*types.Var               // the current function returns a function literal: the variables it captures (closure conversion)
+	retEnvTy       string
 	sigOverride    *types.Signature           // set while a region of a function is translated
 	mapRanges      []mapRangeCtx              // enclosing ranges over maps, innermost last
 	opaqueParams   []string                   // … of the current function: binders to add
@@ -187,7 +198,12 @@ type fsig struct {
 	phi      bool // computes with floats: takes the float operations `fo` before the fuel
 }
 
-func (t *tr) pos(n ast.Node) token.Position { return t.fset.Position(n.Pos()) }
+func (t *tr) pos(n ast.Node) token.Position {
+	if n == nil {
+		return token.Position{Filename: "(a declaration)"}
+	}
+	return t.fset.Position(n.Pos())
+}
 
 func (t *tr) fresh(base string) string {
 	t.tmp++
@@ -255,6 +271,9 @@ func (t *tr) leanType(ty types.Type, at ast.Node) string {
 		if u.Obj().Pkg() != nil && u.Obj().Pkg().Path() == "net/http" && u.Obj().Name() == "Header" {
 			return "(List (Bytes × List Bytes))"
 		}
+		if isMutex(u) {
+			return "Unit" // mutual exclusion is assumed, not modelled
+		}
 		if u.Obj().Pkg() != nil && u.Obj().Pkg().Path() == "io" && u.Obj().Name() == "ReadCloser" {
 			return "BodyV" // a request body: nil, http.NoBody, or a reader identified by a tag
 		}
@@ -303,6 +322,12 @@ func (t *tr) leanType(ty types.Type, at ast.Node) string {
 		}
 		if u.Obj().Name() == "error" {
 			return "(Option String)"
+		}
+		if t.isCallbackType(u) {
+			return "Nat" // a callback value is its identity; the calls made through it are logged (cblog)
+		}
+		if sg, ok := u.Underlying().(*types.Signature); ok && t.retEnvTy != "" && sg.Params().Len() == 0 && sg.Results().Len() == 0 {
+			return t.retEnvTy // the function literal this function returns: its environment (closure conversion)
 		}
 		return t.leanType(u.Underlying(), at)
 	case *types.Basic:
@@ -356,6 +381,73 @@ func (t *tr) leanType(ty types.Type, at ast.Node) string {
 	}
 	die(t.pos(at), "type %s", ty)
 	return ""
+}
+
+// isCallbackType: a named function type with parameters and without results (EventCallback), in a target with a call log
+func (t *tr) isCallbackType(ty types.Type) bool {
+	if t.callLog == "" {
+		return false
+	}
+	n, ok := ty.(*types.Named)
+	if !ok {
+		return false
+	}
+	sg, ok := n.Underlying().(*types.Signature)
+	if ok && sg.Params().Len() == 1 && sg.Results().Len() == 0 {
+		if t.callArgTy == "" {
+			t.callArgTy = t.leanType(sg.Params().At(0).Type(), nil)
+		}
+		return true
+	}
+	return false
+}
+
+// returnedLit: the function literal a function returns (`return func() { … }`), if it does
+func returnedLit(body *ast.BlockStmt) *ast.FuncLit {
+	var lit *ast.FuncLit
+	ast.Inspect(body, func(n ast.Node) bool {
+		if _, ok := n.(*ast.FuncLit); ok {
+			return false
+		}
+		if rs, ok := n.(*ast.ReturnStmt); ok && len(rs.Results) == 1 && lit == nil {
+			if l, ok := rs.Results[0].(*ast.FuncLit); ok {
+				lit = l
+			}
+		}
+		return true
+	})
+	return lit
+}
+
+// litEnv: the variables a function literal captures, the receiver of the enclosing method apart
+func (t *tr) litEnv(lit *ast.FuncLit, recv *types.Var) []*types.Var {
+	var out []*types.Var
+	for _, fv := range t.freeVars(lit.Body, lit.Body) {
+		if recv != nil && fv == recv {
+			continue
+		}
+		out = append(out, fv)
+	}
+	return out
+}
+
+// isMutex: sync.Mutex / sync.RWMutex
+func isMutex(ty types.Type) bool {
+	if p, ok := ty.(*types.Pointer); ok {
+		ty = p.Elem()
+	}
+	n, ok := ty.(*types.Named)
+	return ok && n.Obj().Pkg() != nil && n.Obj().Pkg().Path() == "sync" && (n.Obj().Name() == "Mutex" || n.Obj().Name() == "RWMutex")
+}
+
+// mutexCall: x.mu.Lock() and friends
+func (t *tr) mutexCall(c *ast.CallExpr) bool {
+	sel, ok := c.Fun.(*ast.SelectorExpr)
+	if !ok {
+		return false
+	}
+	tv, ok := t.info.Types[sel.X]
+	return ok && isMutex(tv.Type)
 }
 
 // chanOp: a channel operation of the current function, appended to the log its receiver carries
@@ -878,10 +970,29 @@ func (t *tr) expr(e *em, x ast.Expr) string {
 				return "(headerGet " + t.expr(e, v.X) + " " + t.expr(e, v.Index) + ")" // h[key]: the values stored under exactly that key
 			}
 		}
+		if mt, ok := t.info.Types[v.X].Type.Underlying().(*types.Map); ok {
+			// m[k] of a map of maps: the inner map, nil (= no entries, for a reader) when k is absent
+			if _, inner := mt.Elem().Underlying().(*types.Map); inner {
+				return "((mapGet " + t.expr(e, v.X) + " " + t.expr(e, v.Index) + ").getD [])"
+			}
+			die(t.pos(x), "map index whose value is not a map (use v, ok := m[k])")
+		}
 		s, i := t.expr(e, v.X), t.expr(e, v.Index)
 		n := t.fresh("b")
 		e.line("let %s ← idx %s %s", n, s, i)
 		return n
+	case *ast.FuncLit:
+		if t.retEnv != nil {
+			var ns []string
+			for _, ev := range t.retEnv {
+				ns = append(ns, t.nameOf(ev))
+			}
+			if len(ns) == 0 {
+				return "()"
+			}
+			return "(" + strings.Join(ns, ", ") + ")"
+		}
+		die(t.pos(x), "function literal")
 	case *ast.SliceExpr:
 		if v.Slice3 && (v.High == nil || types.ExprString(v.Max) != types.ExprString(v.High)) {
 			// s[a:b:b] only limits the capacity: the value is s[a:b] (capacities are not part of a value here)
@@ -901,6 +1012,9 @@ func (t *tr) expr(e *em, x ast.Expr) string {
 		}
 		return n
 	case *ast.CompositeLit:
+		if _, isMap := t.info.Types[v].Type.Underlying().(*types.Map); isMap && len(v.Elts) == 0 {
+			return "[]" // an empty, non-nil map
+		}
 		n, ok := t.info.Types[v].Type.(*types.Named)
 		if !ok {
 			die(t.pos(x), "composite literal of %s", t.info.Types[v].Type)
@@ -1225,6 +1339,13 @@ func (t *tr) call(e *em, v *ast.CallExpr) string {
 		}
 	case "delete":
 		if len(v.Args) == 2 {
+			if ix, ok := v.Args[0].(*ast.IndexExpr); ok {
+				if _, outer := t.info.Types[ix.X].Type.Underlying().(*types.Map); outer {
+					// delete(m[k], id): the inner map is reached through the outer one only; nothing happens when k is absent (nil map)
+					t.assignTo(e, ix.X, "(mapDelIn "+t.expr(e, ix.X)+" "+t.expr(e, ix.Index)+" "+t.expr(e, v.Args[1])+")", false)
+					return "()"
+				}
+			}
 			if _, isMap := t.info.Types[v.Args[0]].Type.Underlying().(*types.Map); isMap {
 				t.assignTo(e, v.Args[0], "(mapDel "+t.expr(e, v.Args[0])+" "+t.expr(e, v.Args[1])+")", false)
 				return "()"
@@ -2156,6 +2277,19 @@ func (t *tr) assignTo(e *em, lhs ast.Expr, val string, define bool) {
 				return
 			}
 		}
+		if _, isMap := t.info.Types[l.X].Type.Underlying().(*types.Map); isMap {
+			if ox, ok := l.X.(*ast.IndexExpr); ok {
+				if _, outer := t.info.Types[ox.X].Type.Underlying().(*types.Map); outer {
+					// m[k][i] = v: a write to the entry of a nil map (k absent) panics
+					in := t.fresh("inner")
+					e.line("let %s ← mapInner %s %s", in, t.expr(e, ox.X), t.expr(e, ox.Index))
+					t.assignTo(e, ox.X, "(mapPut "+t.expr(e, ox.X)+" "+t.expr(e, ox.Index)+" (mapPut "+in+" "+t.expr(e, l.Index)+" "+val+"))", false)
+					return
+				}
+			}
+			t.assignTo(e, l.X, "(mapPut "+t.expr(e, l.X)+" "+t.expr(e, l.Index)+" "+val+")", false)
+			return
+		}
 		// element assignment through a local slice or a slice field of an in/out struct (value semantics: the
 		// translated functions own the slice they write to)
 		i := t.expr(e, l.Index)
@@ -2235,6 +2369,11 @@ func (t *tr) isNilableTarget(lhs ast.Expr) bool {
 // simple statements: assignments, declarations, inc/dec
 func (t *tr) simple(e *em, s ast.Stmt) {
 	switch v := s.(type) {
+	case *ast.DeferStmt:
+		if t.mutexCall(v.Call) {
+			return // mutual exclusion is assumed, not modelled: the translated function is one critical section
+		}
+		die(t.pos(s), "defer")
 	case *ast.SendStmt:
 		// ch <- x: logged on the struct that carries the channel log (the goroutine whose code this is)
 		t.chanOp(e, s, "ChanOp.send "+t.expr(e, v.Chan)+" "+t.expr(e, v.Value))
@@ -2357,6 +2496,20 @@ func (t *tr) simple(e *em, s ast.Stmt) {
 	case *ast.ExprStmt:
 		// a call for its effect on the receiver
 		if c, ok := v.X.(*ast.CallExpr); ok {
+			if t.mutexCall(c) {
+				return
+			}
+			if id, ok := c.Fun.(*ast.Ident); ok {
+				if o, ok := t.info.Uses[id].(*types.Var); ok && t.isCallbackType(o.Type()) {
+					// cb(x): logged on the struct that carries the call log
+					if t.recv == nil || len(c.Args) != 1 {
+						die(t.pos(s), "callback call outside a method of the struct that carries the call log")
+					}
+					r := t.nameOf(t.recv)
+					e.line("let %s := { %s with cblog := (%s).cblog ++ [(%s, %s)] }", r, r, r, t.nameOf(o), t.expr(e, c.Args[0]))
+					return
+				}
+			}
 			if types.ExprString(c.Fun) == "copy" {
 				_ = t.copyCall(e, c)
 				return
@@ -2429,6 +2582,9 @@ func (t *tr) assigned(n ast.Node) []*types.Var {
 			}
 			if id, ok := v.Fun.(*ast.Ident); ok {
 				if o, ok := t.info.Uses[id].(*types.Var); ok {
+					if t.isCallbackType(o.Type()) && t.recv != nil {
+						set[t.recv] = true
+					}
 					if t.effParams[o] {
 						set[t.accVar] = true
 					}
@@ -2955,10 +3111,11 @@ func (t *tr) loop(e *em, inner *loopCtx, cond ast.Expr, rng *ast.RangeStmt, body
 			// longer in the map when its turn comes is skipped (Go: an entry removed before it is reached is not produced)
 			mapRange = mt
 			rangeTy = "(List " + t.leanType(mt.Key(), rng) + ")"
-			if t.orderParam == "" {
+			op := t.orderOf[rng]
+			if op == "" {
 				die(t.pos(rng), "range over a map in a function without an order parameter")
 			}
-			e.line("let %s : %s := %s", rangeOver, rangeTy, t.orderParam)
+			e.line("let %s : %s := %s", rangeOver, rangeTy, op)
 		} else {
 			rangeTy = t.leanType(t.info.Types[rng.X].Type, rng)
 			e.line("let %s : %s := %s", rangeOver, rangeTy, t.expr(e, rng.X))
@@ -3249,6 +3406,24 @@ func (t *tr) function(out *em, fd *ast.FuncDecl, leanName string) {
 	t.closures = map[types.Object]*closureInfo{}
 	t.effParams = map[*types.Var]bool{}
 	body := fd.Body.List
+	// closure conversion: a method that returns a function literal without parameters returns the literal's environment
+	// (the variables it captures); the literal's body is translated as a region of its own (kind "retlit")
+	t.retEnv, t.retEnvTy = nil, ""
+	if t.sigOverride == nil && sig.Results().Len() == 1 {
+		if rs, ok := sig.Results().At(0).Type().Underlying().(*types.Signature); ok && rs.Params().Len() == 0 && rs.Results().Len() == 0 {
+			if lit := returnedLit(fd.Body); lit != nil {
+				t.retEnv = t.litEnv(lit, sig.Recv())
+				var tys []string
+				for _, ev := range t.retEnv {
+					tys = append(tys, t.leanType(ev.Type(), fd))
+				}
+				t.retEnvTy = "Unit"
+				if len(tys) > 0 {
+					t.retEnvTy = "(" + strings.Join(tys, " × ") + ")"
+				}
+			}
+		}
+	}
 
 	// an iterator: func (…) each(…) func(yield func(A, B) bool) { return func(yield …) { body } } is translated as its
 	// literal's body, with two more parameters — what `yield` does with a state κ, and that state — and the state as result
@@ -3444,14 +3619,17 @@ func (t *tr) function(out *em, fd *ast.FuncDecl, leanName string) {
 	}
 	// a range over a map: the order in which its keys come is a parameter
 	t.orderParam = ""
+	t.orderOf = map[*ast.RangeStmt]string{}
 	ast.Inspect(fd.Body, func(n ast.Node) bool {
 		if rs, ok := n.(*ast.RangeStmt); ok {
 			if mt, ok := t.info.Types[rs.X].Type.Underlying().(*types.Map); ok {
-				if t.orderParam != "" {
-					die(t.pos(rs), "two ranges over maps in one function")
+				name := "order"
+				if len(t.orderOf) > 0 {
+					name = fmt.Sprintf("order%d", len(t.orderOf)+1)
 				}
-				t.orderParam = "order"
-				params = append(params, "(order : (List "+t.leanType(mt.Key(), rs)+"))")
+				t.orderParam = name
+				t.orderOf[rs] = name
+				params = append(params, "("+name+" : (List "+t.leanType(mt.Key(), rs)+"))")
 			}
 		}
 		return true
@@ -3728,6 +3906,9 @@ func (t *tr) structDecl(out *em, name string, st *types.Struct) {
 		if name == t.chanLog {
 			out.line("  chlog : List (ChanOp (Option String))")
 		}
+		if name == t.callLog {
+			out.line("  cblog : List (Nat × %s)", t.callArgTy)
+		}
 		out.line("")
 		return
 	}
@@ -3825,6 +4006,7 @@ func main() {
 			}
 		}
 		t.chanLog = tg.chanLog
+		t.callLog = tg.callLog
 		t.opaque = map[string]bool{}
 		for _, on := range tg.opaque {
 			t.opaque[on] = true
@@ -3870,6 +4052,20 @@ func main() {
 			if !ok {
 				fmt.Fprintf(os.Stderr, "translate: region: function %s not found\n", rg.fn)
 				os.Exit(3)
+			}
+			if rg.kind == "retlit" {
+				lit := returnedLit(fd.Body)
+				if lit == nil {
+					fmt.Fprintf(os.Stderr, "translate: region: %s returns no function literal\n", rg.fn)
+					os.Exit(3)
+				}
+				fsig := info.Defs[fd.Name].(*types.Func).Type().(*types.Signature)
+				t.sigOverride = types.NewSignatureType(fsig.Recv(), nil, nil, types.NewTuple(t.litEnv(lit, fsig.Recv())...), nil, false)
+				fd2 := *fd
+				fd2.Body = lit.Body
+				t.function(body, &fd2, rg.name)
+				t.sigOverride = nil
+				continue
 			}
 			var stmt *ast.RangeStmt
 			ast.Inspect(fd.Body, func(n ast.Node) bool {
